@@ -12,14 +12,15 @@ def lpFuel (g : G) : Nat := 2 * g.edges.size + 2 * g.nodes.size + 4
 
 /-- heights of all nodes: one run of `followLongestPath` per node not yet in the memo.
     Go visits the nodes in `sort.Slice` order; the heights do not depend on the order (LongestPath.run_inv) -/
-def heights (g : G) : M (List (Nat × Nat)) := do
-  let mut memo : List (Nat × Nat) := []
-  for n in g.nodeIds do
-    if (LongestPath.look memo n).isNone then
-      match LongestPath.run (outNbrs g) (lpFuel g) ⟨[(n, outNbrs g n, 1)], memo⟩ with
-      | some m => memo := m
+def heightsLoop (g : G) : List Nat → List (Nat × Nat) → M (List (Nat × Nat))
+  | [], memo => pure memo
+  | n :: ns, memo =>
+    if (LongestPath.look memo n).isSome then heightsLoop g ns memo
+    else match LongestPath.run (outNbrs g) (lpFuel g) ⟨[(n, outNbrs g n, 1)], memo⟩ with
+      | some m => heightsLoop g ns m
       | none => throw "fuel:phase2.followLongestPath"
-  pure memo
+
+def heights (g : G) : M (List (Nat × Nat)) := heightsLoop g g.nodeIds []
 
 def execLongestPath (g : G) : M G := do
   let memo ← heights g
